@@ -101,6 +101,19 @@ CLAIMS = {
         engine="tablex"),
 }
 
+CLAIMS["C20"] = dict(
+    cat="other",
+    text="Decides structural clauses: every arm of Miniscript::translate_pk_ctx / substitute_raw_pkh and of the policy "
+         "translators rebuilds the same variant with mapped payloads, preserved k / weights / child order and per-node "
+         "re-checks; every key visitor (for_each_key, iter_pk, get_nth_pk) covers every key-carrying variant computed "
+         "from the type definition; TreeLike::as_node, branches, get_nth_child agree with the arity and order of the type "
+         "definition; wrapper translations and Descriptor dispatch are uniform. Decided by evaluating the functions "
+         "(THIR) on one-level model values for all 30 variants.",
+    note="Trusted: model of the generic tree iterators; rustc THIR. Identity / composition laws on deep trees and "
+         "derivation-level key behaviour are not re-proved.",
+    tech=STATIC + "per-variant structure-preservation table extracted by evaluating THIR on model values; dispatch uniformity over match arms",
+    engine="tablex+symx")
+
 NA = {
     "C15": "commitment arithmetic over hashes with shape-dependent index arithmetic: no sound structural argument in "
            "reach decides it; structural residue (depth bounds, constructor discipline, cache coherence, order "
